@@ -25,6 +25,7 @@ def gaussian_acquisition_1D(
     acq_func="LCB",
     acq_func_kwargs=None,
     return_grad=True,
+    random_state=None,
 ):
     """A wrapper around the acquisition function that is called by fmin_l_bfgs_b.
 
@@ -37,6 +38,7 @@ def gaussian_acquisition_1D(
         acq_func=acq_func,
         acq_func_kwargs=acq_func_kwargs,
         return_grad=return_grad,
+        random_state=random_state,
     )
 
 
@@ -47,9 +49,13 @@ def _gaussian_acquisition(
     acq_func="LCB",
     return_grad=False,
     acq_func_kwargs=None,
+    random_state=None,
 ):
     """Wrapper so that the output of this function can be
     directly passed to a minimizer.
+
+    ``random_state`` (int, RandomState instance or None) is used by the acquisition
+    functions which draw samples (MES); None uses the global NumPy generator.
     """
     # Check inputs
     X = np.asarray(X)
@@ -121,7 +127,9 @@ def _gaussian_acquisition(
                 acq_grad += acq_vals * (-mu_grad + std * std_grad)
 
     elif acq_func in ["MES"]:
-        acq_vals = -gaussian_mes(X, model, deterministic=deterministic)
+        acq_vals = -gaussian_mes(
+            X, model, deterministic=deterministic, random_state=random_state
+        )
         if return_grad:
             raise NotImplementedError(
                 "Gradient not implemented for MES acquisition function."
@@ -377,7 +385,7 @@ def gaussian_ei(X, model, y_opt=0.0, xi=0.01, return_grad=False, deterministic=F
     return values
 
 
-def gaussian_mes(X, model, k_samples=10, deterministic=False):
+def gaussian_mes(X, model, k_samples=10, deterministic=False, random_state=None):
     """Use the max-value entropy to calculate the acquisition values.
     Article: https://arxiv.org/abs/1703.01968
     Source implementation: https://github.com/zi-w/Max-value-Entropy-Search/blob/master/acFuns/evaluateMES.m
@@ -417,6 +425,10 @@ def gaussian_mes(X, model, k_samples=10, deterministic=False):
         Whether or not to return the grad. Implemented only for the case where
         ``X`` is a single sample.
 
+    random_state : int, RandomState instance, or None (default)
+        Generator used to draw the ``k_samples`` max-value samples. None uses
+        the global NumPy generator.
+
     Returns:
     -------
     values : array-like, shape=(X.shape[0],)
@@ -447,7 +459,7 @@ def gaussian_mes(X, model, k_samples=10, deterministic=False):
     eps = 1e-10
     std = np.maximum(std, eps)
     for _ in range(k_samples):
-        y_sample = norm.rvs(loc=mu, scale=std)
+        y_sample = norm.rvs(loc=mu, scale=std, random_state=random_state)
         gamma = (np.max(y_sample) - mu) / std
         pdfgamma = np.maximum(norm.pdf(gamma), eps)
         cdfgamma = np.maximum(norm.cdf(gamma), eps)
